@@ -361,6 +361,8 @@ func VerifMain(args []string) int {
 	switch args[0] {
 	case "c13worker":
 		return verifC13Worker(args[1:])
+	case "c20points":
+		return VerifC20Points(args[1:])
 	case "c20race":
 		seed, _ := strconv.ParseInt(args[1], 10, 64)
 		return verifC20RaceMain(seed)
